@@ -63,6 +63,8 @@ impl Window {
     /// Empties the `Window` by writing the data to the file.
     pub fn empty(&mut self) -> Result<(), Box<dyn Error>> {
         for data in &self.elements {
+            #[cfg(rs_tftpd_verif)]
+            crate::verif::disk_write_point(&mut self.file, data)?;
             self.file.write_all(data)?;
         }
 
